@@ -99,7 +99,8 @@ def gen_spec(rng, target, depth=0):
             return k
         return rng.choice(['zz', 'a.zz', 'a.0'])
     if r < 0.7:
-        return {f'out{i}': gen_spec(rng, target, depth + 1) for i in range(rng.randint(1, 3))}
+        names = rng.sample(['zeta', 'out0', 'mid', 'alpha', 'out1', 'b'], rng.randint(1, 3))   # not in sorted order
+        return {nm: gen_spec(rng, target, depth + 1) for nm in names}
     if r < 0.85:
         lists = [k for k in keys if isinstance(target[k], list)]
         if lists:
@@ -358,7 +359,9 @@ def build_invocation(case):
         if fmt in ('yaml', 'toml'):
             target_text = target_text + ('\n  - : [' if fmt == 'yaml' else '\n= = [')
     elif fault == 'malformed':
-        target_text = {'json': '{"a": 1,,}', 'python': '{"a": }', 'yaml': 'a: [1, 2\nb: }', 'toml': 'a = = 1'}[fmt]
+        target_text = {'json': random.Random(case['seed']).choice(
+                           ['{"a": 1,,}', '{"a": 1,}', "{'a': 1}", '{a: 1}', '[1, 2,]', '{"a": tru}', '{"a": 1} # note', 'abc']),
+                       'python': '{"a": }', 'yaml': 'a: [1, 2\nb: }', 'toml': 'a = = 1'}[fmt]
     if case.get('empty') in ('target-empty-file', 'stdin-empty'):
         target_text = ''
     posargs = []
